@@ -2,7 +2,7 @@
 import re
 import core
 from valueset import VS, param_root, field_root
-from rules.common import arm_context, enum_switch_info, edge_variants, site
+from rules.common import arm_context, enum_switch_info, edge_variants, site, single_defs, resolve_value
 
 
 def variant_outcome(b):
@@ -178,6 +178,88 @@ def lossless_bool_subpackets(ctx, P):
     ctx.check(P + ':S05-8:no-octet-collapsed-to-bool', 'R-table', 'no parsed octet of a signature subpacket is reduced to a boolean by `== constant` and then kept (it is matched value by value, other values rejected)',
               not hits, function=hits[0][0] if hits else 'packet::signature::de', site=site(hits[0][1], hits[0][2]) if hits else None,
               missing=None if not hits else 'the flag octet is kept as `octet == const`: every other value is hashed and written back as a different octet than the packet contains')
+
+
+def bitfield_parse_total(ctx, P):
+    """S05-8 (bit level): a `#[bitfield]` type decoded with its generated `from_bits` keeps only the bits of its *named* fields
+    (the generated body starts from 0 and calls one setter per field; padding fields get none).  A parser that builds a value the
+    library later re-serialises (and hashes) must therefore not go through a `from_bits` that leaves bits uncovered: the dropped
+    bits come back as 0 - a different octet than the packet contains.  Covered bits are read off the generated MIR
+    (`(bits >> k) & (MAX >> (W - w))` before each setter call)."""
+    from rules.panics import const_eval
+    cover = {}
+    for p, r in sorted(ctx.f.bodies.items()):
+        if not p.endswith('::from_bits'):
+            continue
+        b = ctx.wrap(r)
+        if not any('bitfield' in (t.get('mac') or []) for _, t in b.calls()):
+            ctx.functions.discard(p)
+            continue
+        defs = single_defs(b)
+        width = {'u8': 8, 'u16': 16, 'u32': 32, 'u64': 64}.get(b.r['locals'][1]['ty'])
+        bits = set()
+        ok = width is not None
+        for i, t in b.calls(r'::set_\w+$'):
+            if len(t['args']) < 2:
+                continue
+            # argument 1 = `(x >> k) & mask [!= 0]`
+            k, v = resolve_value(b, t['args'][1], defs)
+            if k == 'rv' and v['k'] == 'bin' and v['op'] == 'Ne':
+                k, v = resolve_value(b, v['o'][0], defs)
+            if k == 'rv' and v['k'] == 'cast':
+                k, v = resolve_value(b, v['o'][0], defs)
+            if not (k == 'rv' and v['k'] == 'bin' and v['op'] == 'BitAnd'):
+                ok = False
+                continue
+            sh, mask = None, None
+            for o in v['o']:
+                kk, vv = resolve_value(b, o, defs)
+                if kk == 'rv' and vv['k'] == 'bin' and vv['op'] == 'Shr':
+                    c0 = const_eval(b, vv['o'][0], defs)
+                    c1 = const_eval(b, vv['o'][1], defs)
+                    if c0 is not None and c1 is not None:
+                        mask = c0 >> c1
+                    elif c1 is not None:
+                        sh = c1
+                elif kk == 'const':
+                    mask = vv
+            if sh is None or mask is None:
+                ok = False
+                continue
+            for j in range(64):
+                if (mask >> j) & 1:
+                    bits.add(sh + j)
+        cover[p] = (ok, width, bits)
+    ctx.floor(P + ':S05-8:bitfield:floor', 'generated bitfield decoders', len(cover), 4)
+    lossy = {p: sorted(set(range(w)) - bits) for p, (ok, w, bits) in cover.items() if ok and w and set(range(w)) - bits}
+    unread = [p for p, (ok, w, bits) in cover.items() if not ok]
+    ctx.check(P + ':S05-8:bitfield:decoders-read', 'R-table', 'the covered bits of every generated bitfield decoder could be read off its body', not unread,
+              function=unread[0] if unread else 'from_bits', missing=unread or None)
+    # parsers = functions that pull octets from a reader / slice and call a lossy decoder
+    hits = []
+    for p, r in sorted(ctx.f.bodies.items()):
+        if p.endswith('::from_bits') or '::tests::' in p:
+            continue
+        b = None
+        for lp in lossy:
+            rx = re.escape(lp) + '$'
+            bb = ctx.wrap(r) if b is None else b
+            b = bb
+            cs = bb.calls(rx)
+            if not cs:
+                continue
+            for i, t in cs:
+                og = bb.operand_origins(t['args'][0]) if t['args'] else set()
+                wire = any(re.search(r'^call:.*(read_u8|read_le_u16|read_be_u16|read_u16|read_be_u32|get_u8|get_u16|rest|read_array|read_arr)$', x) for x in og)
+                if wire:
+                    hits.append((p, bb, i, lp))
+        if b is not None and not any(h[0] == p for h in hits):
+            ctx.functions.discard(p)
+    ctx.check(P + ':S05-8:bitfield:parse-keeps-every-bit', 'R-table',
+              'no parser decodes wire octets through a generated `from_bits` that drops bits (%d decoders, %d of them lossy)' % (len(cover), len(lossy)),
+              not hits, function=hits[0][0] if hits else 'from_bits', site=site(hits[0][1], hits[0][2]) if hits else None,
+              missing=None if not hits else '%s goes through %s which leaves bits %s at 0: reserved bits of the parsed octets are written back and hashed as 0'
+              % (', '.join(sorted(set(h[0] for h in hits))), hits[0][3], lossy[hits[0][3]]))
 
 
 RFC_IDS = {   # RFC 9580 §9.1–9.6, §5.2.1 (enum discriminants = wire ids)
